@@ -12,6 +12,27 @@ CLAIMED = {
         note="Trusted: pyvc engine and its model library (int(str,36), str(int), join, enumerate, slicing, dict.get; cross-checked against CPython on sampled inputs each run), z3/cvc5, finite-domain tabulation rewrite (domain membership re-proved per obligation). Domains: CUSIP over [0-9A-Z*@#], SEDOL over [0-9A-Z] minus AEIO (vowels proved refused), ISIN over [0-9A-Z] with the 84 two-letter agency prefixes; isin_checksum is proved by a 512-way case split on the digit/letter pattern. Callers use callee contracts at call sites. Characters outside printable ASCII are outside the int() model and not claimed.",
         technique="contracts on the real functions; VCs generated from the AST by symbolic execution (pyvc), discharged by z3 with finite-domain tabulation; counter-models replayed on the real code",
         engine="pyvc"),
+    "C09": dict(
+        category="proof",
+        text="Readers: for every OFX date-time/time notation shape (date, date+time, +.XXX, offset absent or [H|HH|sH|sHH][.MM][:name]) with all digits symbolic and calendar-valid, DateTime/Time.convert returns the aware UTC value whose instant equals the integer-arithmetic reference; texts of wrong length, with a field out of range, a calendar-invalid day or any non-digit code point are refused. Writers: for every aware value (every microsecond, every whole-minute offset -12:00..+14:00, any zone name) the written text is lexically valid and denotes the instant rounded half-up to the millisecond; naive and wrongly typed values are refused. Write-then-read within half a millisecond follows from writer + reader contracts + written-form lemmas (quick) and is additionally proved through the real reader as a composite (thorough). All obligations discharged by SMT for the stated unbounded domains.",
+        design_ref="DESIGN.md 9 (C09)",
+        note="Trusted: pyvc engine, datetime/timedelta model (exact integer microsecond arithmetic; date ordinal uninterpreted and shared with the spec, cross-checked natively), symbolic regex matcher on the real DT_REGEX/TIME_REGEX, int()/str()/f-string models, z3/cvc5. Zone names in reader proofs: absent, empty or 2 arbitrary characters; longer names only in the bounded native evaluation. Years 2..9998 (readers) / 1000..9998 (writers, strftime %Y). Second 60 not demanded either way.",
+        technique="contracts on the real converters; VCs from the AST by symbolic execution with a symbolic regex matcher and an integer datetime model; z3; counter-models replayed natively",
+        engine="pyvc"),
+    "C10": dict(
+        category="proof",
+        text="One contract per element type and dispatch arm with the instance parameters (length, required, enumeration tokens) symbolic, so every parameterisation is covered by one proof: inverse and canonical-text round trips, None exactly when optional, limits enforced on read and write with the boundary values accepted, wrong Python types refused, warn-only strings kept whole with exactly one warning. Date-time/time clauses come from the C09 contracts. The numeric laws of decimals (value and exponent preserved, rounding to scale) are evaluated natively on a sampled grid and labelled bounded; their structure (which library operation on which text under which condition) is proved.",
+        design_ref="DESIGN.md 9 (C10)",
+        note="Trusted: as C09 plus uninterpreted models of saxutils.unescape (identity without '&', never longer), int() on opaque text, decimal.Decimal/quantize/same_quantum/str. String write-then-read proved for values without '&' (values with a bare '&': bounded only). Known findings (carved out by predicate, replayed every run): values holding an entity, lenient int()/Decimal() literals, Integer accepts bool, Decimal exponent notation on write. Bounded parts are never counted in obligations/discharged.",
+        technique="contracts with symbolic instance parameters on the real singledispatch converters; pyvc VCs + z3; native contract evaluation as the bounded stand-in for decimal arithmetic",
+        engine="pyvc"),
+    "C11": dict(
+        category="proof",
+        text="Type level: every unconvert arm is proved to return text in its type's lexical language (Y/N; optional sign and digits; one of the declared tokens; at most `length` characters; [YYYYMMDD]HHMMSS.XXX[(+|-)H[H][.MM][:name]] as decided by an independent scanner) or to refuse the value; decimals: structure proved, plain-notation claim evaluated natively on a sampled grid (bounded) with the exponent/NaN cases as a known finding.",
+        design_ref="DESIGN.md 9 (C11)",
+        note="Covers the converters only so far: that Aggregate.to_etree writes nothing but converter.unconvert(value) into element text, and the escaping of the wire forms, are not yet under contract in this check (see DESIGN.md status table); known findings KF-C11-decimal-exponent and KF-C11-int-bool are replayed each run.",
+        technique="output-language postconditions on the real unconvert functions; pyvc VCs + z3",
+        engine="pyvc"),
 }
 
 
